@@ -12,6 +12,7 @@ import (
 	"path/filepath"
 	"sort"
 	"strings"
+	"sync"
 	"time"
 
 	"verif/harness/hashref"
@@ -97,7 +98,47 @@ func buildV2Job(id string, b *model.Behaviour, pal *palette.Palette, ci int64, h
 }
 
 // runV2Jobs feeds the jobs to the child process and returns its MISMATCH lines per job id.
+// runV2Jobs spreads the jobs over several child processes.
 func runV2Jobs(jobs []*v2Job) (map[string][]string, int64, error) {
+	const procs = 12
+	type res struct {
+		out map[string][]string
+		obs int64
+		err error
+	}
+	rs := make([]res, procs)
+	var wg sync.WaitGroup
+	for p := 0; p < procs; p++ {
+		var part []*v2Job
+		for i := p; i < len(jobs); i += procs {
+			part = append(part, jobs[i])
+		}
+		if len(part) == 0 {
+			continue
+		}
+		wg.Add(1)
+		go func(p int, part []*v2Job) {
+			defer wg.Done()
+			o, n, err := runV2Part(part)
+			rs[p] = res{o, n, err}
+		}(p, part)
+	}
+	wg.Wait()
+	out := map[string][]string{}
+	var obs int64
+	for _, r := range rs {
+		if r.err != nil {
+			return nil, 0, r.err
+		}
+		obs += r.obs
+		for k, v := range r.out {
+			out[k] = append(out[k], v...)
+		}
+	}
+	return out, obs, nil
+}
+
+func runV2Part(jobs []*v2Job) (map[string][]string, int64, error) {
 	bin := os.Getenv("VERIF_V2RUN")
 	if bin == "" {
 		return nil, 0, fmt.Errorf("the v2 runner was not built (VERIF_V2RUN unset)")
@@ -108,7 +149,7 @@ func runV2Jobs(jobs []*v2Job) (map[string][]string, int64, error) {
 		in.Write(b)
 		in.WriteByte('\n')
 	}
-	ctx, cancel := context.WithTimeout(context.Background(), 25*time.Minute)
+	ctx, cancel := context.WithTimeout(context.Background(), 180*time.Minute)
 	defer cancel()
 	cmd := exec.CommandContext(ctx, bin)
 	cmd.Stdin = &in
@@ -160,8 +201,11 @@ func RunV2(id, tier string, seed int64) int {
 	if persistence {
 		classes = append(classes, "reopen", "reopen", "delto")
 	}
-	sim := SimSpec{Module: "MCIavlV2", Spec: "V2SpecSim", K: 8, V: 3, IVs: "{0}", D: 36, Workers: 6, Num: tierNum(tier, 8, 300), Classes: classes,
+	sim := SimSpec{Module: "MCIavlV2", Spec: "V2SpecSim", K: 8, V: 3, IVs: "{0}", D: 36, Workers: 6, Num: tierNum(tier, 8, 40), Classes: classes,
 		Invs: []string{"InvContents", "InvLoadable"}, ExtraConst: "  CIs = {1, 2, 3, 1000}\n"}
+	if persistence && tier == "thorough" {
+		sim.Num = 150 // two option sets per behaviour only: more behaviours instead
+	}
 	behs, gen, err := GenerateBehaviours(sim, seed)
 	if err != nil {
 		return fail(2, "INCONCLUSIVE: "+err.Error())
@@ -171,7 +215,7 @@ func RunV2(id, tier string, seed int64) int {
 		// a second family with larger trees and many removals: double rotations triggered by a removal
 		// need five or more keys in a particular shape
 		big := sim
-		big.K, big.D, big.Num = 12, 48, tierNum(tier, 4, 60)
+		big.K, big.D, big.Num = 12, 48, tierNum(tier, 4, 20)
 		big.Classes = []string{"setnew", "setnew", "setnew", "setnew", "set", "rm", "rm", "rm", "rm", "save", "save"}
 		bb, bg, err := GenerateBehaviours(big, seed+31)
 		if err != nil {
